@@ -88,6 +88,14 @@ class CallsMixin:
         if con is not None and oc and any(x and x in callee for x in oc.split(',')):
             cx.notes.append('contract of %s deliberately not used here (treated as opaque)' % callee)
             return self.call_opaque(st, fr, ins, callee, args)
+        if con is not None and con.opts.get('callers') == 'trust':
+            cx.assumed_used.add('frame of %s is not verified: callers assume it writes nothing they read (declared `callers trust`)' % callee)
+        elif con is not None and not con.assumed and not con.inline and con.opts.get('frame') == 'off' and con.modifies is None \
+                and not con.pure:
+            # verified without a frame check and without a modifies clause: what it writes is not
+            # known to callers, so they may not rely on "writes nothing"
+            cx.notes.append('contract of %s states no frame (callers treat it as opaque)' % callee)
+            return self.call_opaque(st, fr, ins, callee, args)
         if con is not None and con.opts.get('callers') == 'opaque':
             # the contract states what the body establishes but not a complete frame: callers do
             # not rely on it
